@@ -1579,12 +1579,15 @@ fn family_cli(thorough: bool) -> Family {
     let description = format!(
         "real jj binary on a Git-backend workspace: c0 creates f, g, d/h (3 lines each); c1 one of {} edits; the source c2 one \
          of {} multi-path edits; above the source one of [{}]; the last commit is the working-copy commit (its edits either \
-         committed or only on disk, so that the command snapshots them); operations: jj split -r c2 -m selected with every \
-         non-empty subset of the paths {{f, g, d/h, k}} the source touches plus one untouched path, jj squash -r c2 -u, \
-         jj absorb --from c2 with --into unset / c0 / c1 / c0+c1, and the same three operations on the working-copy commit",
+         committed or only on disk, so that the command snapshots them); operations: jj split -r c2 -m selected with {} \
+         of the paths {{f, g, d/h, k}} the source touches, plus an untouched path, jj squash -r c2 -u, \
+         jj absorb --from c2 with --into unset / c0 / c1{}, and the same three operations on the working-copy commit \
+         (through the commands' default revision @)",
         middles.len(),
         sources.len(),
         aboves.iter().map(|a| a.name).collect::<Vec<_>>().join(", "),
+        if thorough { "every non-empty subset" } else { "every single path and the set of all" },
+        if thorough { " / c0+c1" } else { "" },
     );
     Family {
         name: "cli".into(),
@@ -1622,14 +1625,20 @@ fn family_cli(thorough: bool) -> Family {
             }
             let untouched = ["f", "g", "d/h"].iter().find(|p| !touched.iter().any(|t| t == *p)).map(|p| p.to_string());
             for s in nonempty_subsets(&touched) {
-                ops.push(OpSpec::Split { x: 2, paths: s });
+                // quick: each single path and all of them
+                if thorough || s.len() == 1 || s.len() == touched.len() {
+                    ops.push(OpSpec::Split { x: 2, paths: s });
+                }
             }
             if let Some(u) = untouched {
                 ops.push(OpSpec::Split { x: 2, paths: vec![u.clone()] });
-                ops.push(OpSpec::Split { x: 2, paths: vec![touched[0].clone(), u] });
+                if thorough {
+                    ops.push(OpSpec::Split { x: 2, paths: vec![touched[0].clone(), u] });
+                }
             }
             ops.push(OpSpec::Squash { x: 2 });
-            for into in [None, Some(vec![0]), Some(vec![1]), Some(vec![0, 1])] {
+            let intos = if thorough { vec![None, Some(vec![0]), Some(vec![1]), Some(vec![0, 1])] } else { vec![None, Some(vec![0]), Some(vec![1])] };
+            for into in intos {
                 ops.push(OpSpec::Absorb { x: 2, into });
             }
             if wc != 2 {
